@@ -222,7 +222,13 @@ def oracleC06 (o : OSt) (op : OpKind) (_log : List String) (cur : World) : Strin
   bad.headD "pass"
 
 /-! ## C07 -/
-def oracleC07 (o : OSt) (op : OpKind) (log : List String) (cur : World) : String :=
+def oracleC07 (o : OSt) (op : OpKind) (log : List String) (cur : World) (res : String := "") : String :=
+  -- a reconcile whose Delete of the run object was refused must fail (and so be requeued): otherwise nothing retries the
+  -- clean-up of a completed Trial and the run object stays although `retain` is false
+  let notRetried : Option Key2 := match op with
+    | .recTrial k _ => if res == "ok" && log.contains ("job.delete." ++ k.ns ++ "/" ++ k.name ++ ":fault") then some k else none
+    | _ => none
+  if let some k := notRetried then s!"fail refused-run-object-delete-not-retried {k.name}" else
   let created := (okWrites log "job.create.").map parseK2
   let deleted := (okWrites log "job.delete.").map parseK2
   let twice := created.find? (fun k => (lookup o.jobCreates k).getD 0 ≥ 1)
